@@ -221,13 +221,57 @@ type preStats struct {
 	skipped, failing, nontrivial       int64
 	rangePointLines                    int64
 	memNs, dbNs                        int64 // debug timing only
-	dbCapped                           int64 // files whose database comparison was not started because the wall-clock cap was reached
 }
 
 var pbackends = []dnsfix.Backend{dnsfix.RDBv1, dnsfix.RDBv2}
 
 // runPreproc: kDB = bound for the real-database comparison, kMem = bound for the parsed-stream comparison.
-func runPreproc(r *vlib.Run, dir string, kDB, kMem int, deadline time.Time) *preStats {
+// dbCore is the sub-alphabet from which the larger real-database files are drawn:
+// one % line per map, the indented % line, the SOA serial variants, one ordinary line.
+var dbCore = []string{"net-m1-10-8", "net-c1-v6def", "sp-net", "Z-empty", "Z-ser42", "Z-ser0", "a", "Z-short"}
+
+// dbSpace decides, deterministically, which files are compared on a real
+// RocksDB: every sequence of <= kAll lines over the full alphabet, plus every
+// file of kAll+1 .. kCore lines drawn from dbCore in alphabet order (one
+// representative per set of lines). The set is closed under taking subsequences.
+type dbSpace struct {
+	kAll, kCore int
+	core        map[int]bool
+}
+
+func newDBSpace(kAll, kCore, coreSize int) *dbSpace {
+	d := &dbSpace{kAll: kAll, kCore: kCore, core: map[int]bool{}}
+	for _, id := range dbCore[:coreSize] {
+		found := false
+		for i, l := range palphabet {
+			if l.id == id {
+				d.core[i] = true
+				found = true
+			}
+		}
+		if !found {
+			vlib.Infra("dbCore line %q is not in the alphabet", id)
+		}
+	}
+	return d
+}
+
+func (d *dbSpace) contains(s []int) bool {
+	if len(s) <= d.kAll {
+		return true
+	}
+	if len(s) > d.kCore {
+		return false
+	}
+	for k, i := range s {
+		if !d.core[i] || (k > 0 && s[k-1] >= i) {
+			return false
+		}
+	}
+	return true
+}
+
+func runPreproc(r *vlib.Run, dir string, db *dbSpace, kMem int) *preStats {
 	st := &preStats{}
 	noDB := os.Getenv("VERIF_C09_DEBUG_NODB") != "" // debugging aid only; the run is then marked not exhaustive
 	if noDB {
@@ -258,12 +302,7 @@ func runPreproc(r *vlib.Run, dir string, kDB, kMem int, deadline time.Time) *pre
 		}
 		atomic.AddInt64(&st.memNs, int64(time.Since(t0)))
 		t0 = time.Now()
-		if len(s) <= kDB && !noDB {
-			if time.Now().After(deadline) {
-				atomic.AddInt64(&st.dbCapped, 1)
-				results[i].db[0].kind, results[i].db[1].kind = "capped", "capped"
-				return
-			}
+		if db.contains(s) && !noDB {
 			atomic.AddInt64(&st.files, 1)
 			for bi, b := range pbackends {
 				results[i].db[bi] = compareDB(dir, b, orig, pre, perr)
@@ -288,14 +327,14 @@ func runPreproc(r *vlib.Run, dir string, kDB, kMem int, deadline time.Time) *pre
 			return false
 		}
 		if mode == "db" {
-			return len(sub) <= kDB && !noDB && results[j].db[bi].kind == kind
+			return db.contains(sub) && !noDB && results[j].db[bi].kind == kind
 		}
 		return results[j].mem[bi].kind == kind
 	}
 	for i, s := range seqs {
 		r.Sample(map[string]string{"part": "preprocess", "file": fileKey(s)})
 		for _, mode := range []string{"db", "mem"} {
-			if mode == "db" && (len(s) > kDB || noDB) {
+			if mode == "db" && (!db.contains(s) || noDB) {
 				continue
 			}
 			for bi, b := range pbackends {
@@ -305,9 +344,6 @@ func runPreproc(r *vlib.Run, dir string, kDB, kMem int, deadline time.Time) *pre
 				}
 				if pr.kind == "skip" {
 					st.skipped++
-					continue
-				}
-				if pr.kind == "capped" {
 					continue
 				}
 				if pr.kind == "" {
